@@ -11,7 +11,9 @@ use std::collections::BTreeSet;
 
 #[derive(Serialize, Deserialize, Clone, Debug, PartialEq, Eq, PartialOrd, Ord)]
 pub enum LT { Iri(u32), Lit(u32), EscLit(u32), Bn(u32), /// an IRI of a second namespace with the same local names (http://f/n<k>)
-    Iri2(u32) }
+    Iri2(u32),
+    /// an RDF-star quoted triple over IRIs: << <http://e/n a> <http://e/p b> <http://e/n c> >>
+    Quoted(u32, u32, u32) }
 #[derive(Serialize, Deserialize, Clone, Debug, PartialEq, Eq)]
 pub enum Fmt { NTriples, NQuads, Turtle, N3, RdfXml }
 #[derive(Serialize, Deserialize, Clone, Debug)]
@@ -21,8 +23,8 @@ pub struct LoadCase { pub hash_seed: u64, pub pool: usize, pub rayon_seed: u64, 
 pub struct C13;
 
 /// escaped-literal families: backslash and quote in the middle, value ending in a backslash, value ending in a quote
-fn canon(t: &LT) -> String { match t { LT::Iri2(n) => format!("http://f/n{}", n), LT::Iri(n) => format!("http://e/n{}", n), LT::Lit(n) => format!("v{}", n), LT::EscLit(n) => match n % 3 { 0 => format!("a\"b\\c{}", n), 1 => format!("dir{}\\", n), _ => format!("say{}\"", n) }, LT::Bn(n) => format!("_:b{}", n) } }
-fn nt(t: &LT) -> String { match t { LT::Iri2(n) => format!("<http://f/n{}>", n), LT::Iri(n) => format!("<http://e/n{}>", n), LT::Lit(n) => format!("\"v{}\"", n), LT::EscLit(n) => match n % 3 { 0 => format!("\"a\\\"b\\\\c{}\"", n), 1 => format!("\"dir{}\\\\\"", n), _ => format!("\"say{}\\\"\"", n) }, LT::Bn(n) => format!("_:b{}", n) } }
+fn canon(t: &LT) -> String { match t { LT::Quoted(a, b, c) => format!("<< http://e/n{} http://e/p{} http://e/n{} >>", a, b, c), LT::Iri2(n) => format!("http://f/n{}", n), LT::Iri(n) => format!("http://e/n{}", n), LT::Lit(n) => format!("v{}", n), LT::EscLit(n) => match n % 3 { 0 => format!("a\"b\\c{}", n), 1 => format!("dir{}\\", n), _ => format!("say{}\"", n) }, LT::Bn(n) => format!("_:b{}", n) } }
+fn nt(t: &LT) -> String { match t { LT::Quoted(a, b, c) => format!("<< <http://e/n{}> <http://e/p{}> <http://e/n{}> >>", a, b, c), LT::Iri2(n) => format!("<http://f/n{}>", n), LT::Iri(n) => format!("<http://e/n{}>", n), LT::Lit(n) => format!("\"v{}\"", n), LT::EscLit(n) => match n % 3 { 0 => format!("\"a\\\"b\\\\c{}\"", n), 1 => format!("\"dir{}\\\\\"", n), _ => format!("\"say{}\\\"\"", n) }, LT::Bn(n) => format!("_:b{}", n) } }
 fn pred(p: u32) -> String { format!("http://e/p{}", p) }
 
 /// N-Quads only: statement i of the document may carry a graph name (a pure function of the render seed and i)
@@ -108,7 +110,7 @@ pub fn lexical(db: &SparqlDatabase) -> Result<(BTreeSet<Q>, BTreeSet<String>), S
 }
 fn supported(fmt: &Fmt, doc: &Doc) -> bool {
     match fmt {
-        Fmt::RdfXml => doc.triples.iter().all(|(s, _, o)| matches!(s, LT::Iri(_) | LT::Iri2(_)) && !matches!(o, LT::Bn(_) | LT::EscLit(_))),
+        Fmt::RdfXml => doc.triples.iter().all(|(s, _, o)| matches!(s, LT::Iri(_) | LT::Iri2(_)) && matches!(o, LT::Iri(_) | LT::Iri2(_) | LT::Lit(_))),
         _ => true,
     }
 }
@@ -145,8 +147,8 @@ impl Prop for C13 {
         let n = match size_class { 0 => *r.pick(&[999usize, 1000, 1001, 1999, 2000, 2001, 2500]), 1 => 990 + r.usize(30), 2 if cfg.chance(1, 2) => *r.pick(&[8191usize, 8192, 8193, 16384, 16385]), _ => 1 + r.usize(60) };
         let big = n > 200;
         let vocab = if big { (n as u64) * 2 } else { 12 };
-        let second_ns = cfg.chance(1, 5);
-        let term = |r: &mut Rng, obj: bool| -> LT { if second_ns && r.chance(1, 4) { return LT::Iri2(r.below(vocab.min(12)) as u32); } match r.below(10) { 0 | 1 if obj => LT::Lit(r.below(vocab) as u32), 2 if obj => LT::EscLit(r.below(5) as u32), 3 => LT::Bn(r.below(6) as u32), _ => LT::Iri(r.below(vocab) as u32) } };
+        let second_ns = cfg.chance(1, 5); let star = cfg.chance(1, 6);
+        let term = |r: &mut Rng, obj: bool| -> LT { if second_ns && r.chance(1, 4) { return LT::Iri2(r.below(vocab.min(12)) as u32); } if star && r.chance(1, 5) { return LT::Quoted(r.below(6) as u32, r.below(3) as u32, r.below(6) as u32); } match r.below(10) { 0 | 1 if obj => LT::Lit(r.below(vocab) as u32), 2 if obj => LT::EscLit(r.below(5) as u32), 3 => LT::Bn(r.below(6) as u32), _ => LT::Iri(r.below(vocab) as u32) } };
         let triples: Vec<(LT, u32, LT)> = (0..n).map(|_| (term(&mut r, false), r.below(4) as u32, term(&mut r, true))).collect();
         let mut triples = triples; if cfg.chance(1, 3) { triples.sort_by(|a, b| a.0.cmp(&b.0)); }
         let prior_kind = cfg.below(3);
@@ -173,12 +175,13 @@ impl Prop for C13 {
             // N3 keeps the quotes of literals (a listed finding, see known_findings.json): outside the 1-in-10 runs that
             // stay in that region, the N3 rendering of the document has its literal objects replaced by IRIs so that chunking,
             // prior content and prefixes of the N3 loader stay fully explored
-            let proj_doc; let (doc, want_doc) = if *fmt == Fmt::N3 && !c.n3_literals && c.doc.triples.iter().any(|(_, _, o)| matches!(o, LT::Lit(_) | LT::EscLit(_))) {
-                proj_doc = Doc { triples: c.doc.triples.iter().map(|(s, p, o)| (s.clone(), *p, match o { LT::Lit(n) | LT::EscLit(n) => LT::Iri(*n + 70_000), x => x.clone() })).collect(), seed: c.doc.seed };
+            let proj_doc; let has_quoted = c.doc.triples.iter().any(|(s, _, o)| matches!(s, LT::Quoted(..)) || matches!(o, LT::Quoted(..)));
+            let (doc, want_doc) = if *fmt == Fmt::N3 && ((!c.n3_literals && c.doc.triples.iter().any(|(_, _, o)| matches!(o, LT::Lit(_) | LT::EscLit(_)))) || has_quoted) {
+                proj_doc = Doc { triples: c.doc.triples.iter().map(|(s, p, o)| (match s { LT::Quoted(a, _, _) => LT::Iri(*a + 60_000), x => x.clone() }, *p, match o { LT::Lit(n) | LT::EscLit(n) => LT::Iri(*n + 70_000), LT::Quoted(a, _, _) => LT::Iri(*a + 60_000), x => x.clone() })).collect(), seed: c.doc.seed };
                 (&proj_doc, expected(&proj_doc))
             } else if *fmt == Fmt::RdfXml && !supported(fmt, &c.doc) {
                 // the RDF/XML subset has IRI subjects and IRI / plain-literal objects: project the document onto it
-                proj_doc = Doc { triples: c.doc.triples.iter().map(|(s, p, o)| (match s { LT::Iri(n) => LT::Iri(*n), LT::Iri2(n) => LT::Iri2(*n), LT::Bn(n) | LT::Lit(n) | LT::EscLit(n) => LT::Iri(*n + 80_000) }, *p, match o { LT::Bn(n) => LT::Iri(*n + 80_000), LT::EscLit(n) => LT::Lit(*n + 90_000), x => x.clone() })).collect(), seed: c.doc.seed };
+                proj_doc = Doc { triples: c.doc.triples.iter().map(|(s, p, o)| (match s { LT::Iri(n) => LT::Iri(*n), LT::Iri2(n) => LT::Iri2(*n), LT::Quoted(a, _, _) => LT::Iri(*a + 60_000), LT::Bn(n) | LT::Lit(n) | LT::EscLit(n) => LT::Iri(*n + 80_000) }, *p, match o { LT::Bn(n) => LT::Iri(*n + 80_000), LT::EscLit(n) => LT::Lit(*n + 90_000), LT::Quoted(a, _, _) => LT::Iri(*a + 60_000), x => x.clone() })).collect(), seed: c.doc.seed };
                 (&proj_doc, expected(&proj_doc))
             } else { (&c.doc, want_doc.clone()) };
             let want_doc = if *fmt == Fmt::NQuads && c.nq_graphs { expected_nq(doc, true) } else { want_doc };
@@ -222,7 +225,7 @@ impl Prop for C13 {
         if c.pool != 1 { out.push(LoadCase { pool: 1, rayon_seed: 0, ..c.clone() }); }
         if c.cpus != 1 { out.push(LoadCase { cpus: 1, ..c.clone() }); }
         // simplify terms
-        if c.doc.triples.iter().any(|(s, _, o)| !matches!(s, LT::Iri(_)) || !matches!(o, LT::Iri(_))) { let t = c.doc.triples.iter().map(|(s, p, o)| (match s { LT::Iri(n) | LT::Iri2(n) => LT::Iri(*n), LT::Bn(n) | LT::Lit(n) | LT::EscLit(n) => LT::Iri(*n + 500) }, *p, match o { LT::Iri(n) | LT::Iri2(n) => LT::Iri(*n), LT::Bn(n) | LT::Lit(n) | LT::EscLit(n) => LT::Iri(*n + 500) })).collect(); out.push(LoadCase { doc: Doc { triples: t, seed: c.doc.seed }, ..c.clone() }); }
+        if c.doc.triples.iter().any(|(s, _, o)| !matches!(s, LT::Iri(_)) || !matches!(o, LT::Iri(_))) { let t = c.doc.triples.iter().map(|(s, p, o)| (match s { LT::Iri(n) | LT::Iri2(n) => LT::Iri(*n), LT::Quoted(a, _, _) => LT::Iri(*a + 600), LT::Bn(n) | LT::Lit(n) | LT::EscLit(n) => LT::Iri(*n + 500) }, *p, match o { LT::Iri(n) | LT::Iri2(n) => LT::Iri(*n), LT::Quoted(a, _, _) => LT::Iri(*a + 600), LT::Bn(n) | LT::Lit(n) | LT::EscLit(n) => LT::Iri(*n + 500) })).collect(); out.push(LoadCase { doc: Doc { triples: t, seed: c.doc.seed }, ..c.clone() }); }
         if c.doc.triples.iter().any(|(_, _, o)| matches!(o, LT::EscLit(_))) { let t = c.doc.triples.iter().map(|(s, p, o)| (s.clone(), *p, match o { LT::EscLit(n) => LT::Lit(*n), x => x.clone() })).collect(); out.push(LoadCase { doc: Doc { triples: t, seed: c.doc.seed }, ..c.clone() }); }
         out
     }
